@@ -135,9 +135,7 @@ fn etag_list_sym() {
 }
 
 fn hv(b: &[u8]) -> HeaderValue {
-    let mut v = Vec::with_capacity(NL);
-    v.extend_from_slice(b);
-    HeaderValue::model_from_vec(v)
+    HeaderValue::model_from_inline(b)
 }
 
 /// If-Match / If-None-Match against the entity's ETag: symbolic header bytes, symbolic ETag.
